@@ -27,6 +27,7 @@ type vfRecovered struct {
 	keys  [6][16]byte
 	ids   [6][16]byte
 	depth [6]uint8
+	vals  [6]string // the key's value frame (empty: none)
 }
 
 // vfRecover starts a fresh instance on dir and returns the holds of keys 1..3.
@@ -59,6 +60,7 @@ func vfRecover(dir string) (vfRecovered, bool) {
 		for _, l := range vfHolders(m) {
 			if out.n < 6 {
 				out.keys[out.n], out.ids[out.n], out.depth[out.n] = l.command.LockKey, l.command.LockId, l.locked
+				out.vals[out.n] = string(m.GetLockData())
 				out.n++
 			}
 		}
@@ -71,7 +73,7 @@ func vfSameRecovered(a, b vfRecovered) bool {
 		return false
 	}
 	for i := 0; i < a.n; i++ {
-		if a.keys[i] != b.keys[i] || a.ids[i] != b.ids[i] || a.depth[i] != b.depth[i] {
+		if a.keys[i] != b.keys[i] || a.ids[i] != b.ids[i] || a.depth[i] != b.depth[i] || a.vals[i] != b.vals[i] {
 			return false
 		}
 	}
